@@ -152,6 +152,20 @@ class Body:
         self._dom = dom
         return dom
 
+    def loop_heads(self):
+        """targets of back edges (a -> b with b dominating a)"""
+        if getattr(self, "_lh", None) is not None:
+            return self._lh
+        dom = self.dominators()
+        succ = self.succ_map()
+        heads = set()
+        for a in self.reachable():
+            for b in succ[a]:
+                if b in dom.get(a, ()):
+                    heads.add(b)
+        self._lh = heads
+        return heads
+
     def exits(self):
         """Blocks with no (non-unwind) successors: returns, panics (diverging calls), unreachable."""
         succ = self.succ_map()
